@@ -12,6 +12,7 @@ import (
 	"verifharness/world"
 
 	fpb "github.com/anoideaopen/foundation/proto"
+	"golang.org/x/crypto/sha3"
 	"github.com/golang/protobuf/proto" //nolint:staticcheck
 	"google.golang.org/protobuf/types/known/timestamppb"
 )
@@ -24,6 +25,7 @@ type c11ex struct {
 	base
 	c *world.Chan
 	o world.Options
+	open map[string]string // "s" / "m" -> id of the swap / multi-swap begun last
 }
 
 // methodTable renders the reflect router's table of the harness token: name:fn:kind:auth
@@ -194,6 +196,101 @@ func (e *c11ex) Exec(op string) string {
 		e.o = o
 		wd.Robot.SKIHex = save
 		return "ok"
+	case "openswap":
+		// a swap (s) or multi-swap (m) begun by a funded user under the configuration in force
+		if len(w) != 2 || e.c == nil || (w[1] != "s" && w[1] != "m") {
+			return "bad-op"
+		}
+		if e.open == nil {
+			e.open = map[string]string{}
+		}
+		u := wd.Users[0]
+		h := sha3.Sum256([]byte("key-" + w[1]))
+		id := simpeer.NewTxID()
+		var args []string
+		fn := "swapBegin"
+		if w[1] == "s" {
+			if r := e.c.Do(wd.Issuer, "emit", u.Addr, "5"); r != "" {
+				return "err fund"
+			}
+			args = e.c.Signed(u, fn, "VT", "CC", "5", hex.EncodeToString(h[:]))
+		} else {
+			fn = "multiSwapBegin"
+			if r := e.c.Do(wd.Issuer, "emitIndustrial", u.Addr, "5", "VT_g1"); r != "" {
+				return "err fund"
+			}
+			args = e.c.Signed(u, fn, "VT", `{"assets":[{"group":"VT_g1","amount":"5"}]}`, "CC", hex.EncodeToString(h[:]))
+		}
+		if r := e.c.Invoke(wd.Client.Creator, id, fn, args...); !r.OK() {
+			return "err"
+		}
+		if b := e.c.ExecIDs(id); b.Resp == nil || len(b.Resp.TxResponses) != 1 || b.Resp.TxResponses[0].GetError() != nil {
+			return "err"
+		}
+		e.open[w[1]] = id
+		return "ok"
+	case "recfg":
+		// the channel is initialised again with other swap switches (everything else as before)
+		if len(w) != 3 || e.c == nil {
+			return "bad-op"
+		}
+		e.o.DisableSwaps, e.o.DisableMultiSwaps = w[1] == "1", w[2] == "1"
+		e.c.Reconfigure(e.o)
+		return "ok"
+	case "keys", "answers":
+		// the robot's lists in a batch: keys completing the open swap at its origin, or the answer to a
+		// swap begun elsewhere. n = replies in the batch response, e = of which errors, rec = record on the ledger
+		if len(w) != 3 || e.c == nil || (w[1] != "s" && w[1] != "m") {
+			return "bad-op"
+		}
+		typ := map[string]string{"s": "swaps", "m": "multi_swap"}[w[1]]
+		b := &fpb.Batch{}
+		var id string
+		if w[0] == "keys" {
+			id = e.open[w[1]]
+			if id == "" {
+				id = "00"
+			}
+			idb, _ := hex.DecodeString(id)
+			k := &fpb.SwapKey{Id: idb, Key: map[string]string{"right": "key-" + w[1]}[w[2]] + map[string]string{"wrong": "nokey"}[w[2]]}
+			if w[1] == "s" {
+				b.Keys = append(b.Keys, k)
+			} else {
+				b.MultiSwapsKeys = append(b.MultiSwapsKeys, k)
+			}
+		} else {
+			id = simpeer.NewTxID()
+			idb, _ := hex.DecodeString(id)
+			h := sha3.Sum256([]byte("k"))
+			if w[1] == "s" {
+				b.Swaps = append(b.Swaps, &fpb.Swap{Id: idb, Creator: []byte("0000"), Owner: wd.Users[0].AddrRaw, Token: "CC", Amount: []byte{3}, From: "CC", To: "VT", Hash: h[:], Timeout: 1})
+			} else {
+				b.MultiSwaps = append(b.MultiSwaps, &fpb.MultiSwap{Id: idb, Creator: []byte("0000"), Owner: wd.Users[0].AddrRaw, Token: "CC",
+					Assets: []*fpb.Asset{{Group: "CC_g1", Amount: []byte{3}}}, From: "CC", To: "VT", Hash: h[:], Timeout: 1})
+			}
+		}
+		e.nontrivial = true
+		r := e.c.ExecBatch(b)
+		if r.Resp == nil {
+			return "err batch"
+		}
+		rs := r.Resp.SwapKeyResponses
+		if w[0] == "answers" {
+			rs = r.Resp.SwapResponses
+		}
+		ne := 0
+		for _, x := range rs {
+			if x.GetError() != nil {
+				ne++
+			}
+		}
+		rec := 0
+		for k := range e.c.L.State {
+			if strings.HasPrefix(k, "\x00"+typ+"\x00"+id+"\x00") {
+				rec = 1
+			}
+		}
+		return fmt.Sprintf("n=%d e=%d rec=%d", len(rs), ne, rec)
 	case "readmin":
 		// the channel is initialised again (same instance, same options) with another admin address
 		if len(w) != 2 || e.c == nil {
@@ -423,8 +520,20 @@ func genC11(c *Cfg, emit func([]string)) {
 				}
 			}
 		}
+		// swaps begun while enabled, the switches changed by a re-initialisation, then the robot's
+		// batch lists (keys, answers): refused while the switch in force is off, whatever was begun before
+		for _, k := range []string{"s", "m"} {
+			h = append(h, "recfg 0 0", "openswap "+k, "keys "+k+" wrong")
+			x, y := "1", "0"
+			if k == "m" {
+				x, y = "0", "1"
+			}
+			h = append(h, "recfg "+x+" "+y, "keys "+k+" wrong", "keys "+k+" right", "answers "+k+" new", "keys "+map[string]string{"s": "m", "m": "s"}[k]+" right",
+				"answers "+map[string]string{"s": "m", "m": "s"}[k]+" new", "recfg "+y+" "+x, "keys "+k+" right", "keys "+k+" right", "answers "+k+" new", "recfg 1 1", "answers "+k+" new", "keys "+k+" right")
+			total += 10
+		}
 		emit(h)
 	}
-	c.Rule = fmt.Sprintf("%d configurations (subsets of a 6-function disabled pool, swap and multi-swap switches, with and without an options section, robot configured by key id or by certificate hash) x { 9 entry points x 5 caller identities (robot, admin-OU cert, ordinary cert, no creator, garbage creator); 23 functions (scripted tx/nbtx/query bodies with and without sender, transfer, swap and multi-swap methods, the 6 admin-only methods, unknown function) x routes (direct or batched submission+execution, task execution) x signed senders (admin, issuer, stranger) }: %d calls; plus re-initialisations of the same instance with another admin address followed by the admin-only methods under the old and the new admin; plus other spellings (capital first letter, Go method name, upper case) of the entry points and of privileged / disabled functions on every route, which must be unknown functions; plus Init under every identity and under certificates whose organisational units are near-misses of 'admin' (substrings, superstrings, other letter case, several units). Observed: refusal class / pass, and the business-ledger diff on refusal. non-trivial = every configuration history; distinct = sha256", nCfg, total)
+	c.Rule = fmt.Sprintf("%d configurations (subsets of a 6-function disabled pool, swap and multi-swap switches, with and without an options section, robot configured by key id or by certificate hash) x { 9 entry points x 5 caller identities (robot, admin-OU cert, ordinary cert, no creator, garbage creator); 23 functions (scripted tx/nbtx/query bodies with and without sender, transfer, swap and multi-swap methods, the 6 admin-only methods, unknown function) x routes (direct or batched submission+execution, task execution) x signed senders (admin, issuer, stranger) }: %d calls; plus re-initialisations of the same instance with another admin address followed by the admin-only methods under the old and the new admin; plus other spellings (capital first letter, Go method name, upper case) of the entry points and of privileged / disabled functions on every route, which must be unknown functions; plus swaps and multi-swaps begun while enabled, the switches turned off and on by re-initialisations, and the robot's key and answer lists in batches under each; plus Init under every identity and under certificates whose organisational units are near-misses of 'admin' (substrings, superstrings, other letter case, several units). Observed: refusal class / pass, and the business-ledger diff on refusal. non-trivial = every configuration history; distinct = sha256", nCfg, total)
 	c.Extra = map[string]any{"configurations": nCfg, "calls": total}
 }
